@@ -1,6 +1,8 @@
 package drivers
 
 import (
+	"errors"
+	"fmt"
 	"io"
 	"net"
 	"time"
@@ -104,6 +106,38 @@ func runMachines(p hsParams, cRW, sRW io.ReadWriter) hsResult {
 	}
 	res.sErr = <-done
 	return res
+}
+
+// runMachinesGuarded is runMachines with a watchdog: a handshake over an
+// in-memory transport that has not ended after the patience (real time; a
+// handshake takes milliseconds) is stuck - e.g. waiting for bytes a read-ahead
+// swallowed.  The transports are closed to release the two parties and the
+// outcome says so.
+func runMachinesGuarded(p hsParams, cRW, sRW io.ReadWriter, patience time.Duration) (hsResult, bool) {
+	ch := make(chan hsResult, 1)
+	go func() { ch <- runMachines(p, cRW, sRW) }()
+	select {
+	case res := <-ch:
+		return res, false
+	case <-time.After(patience):
+	}
+	for _, x := range []io.ReadWriter{cRW, sRW} {
+		if c, ok := x.(io.Closer); ok {
+			c.Close()
+		}
+	}
+	select {
+	case res := <-ch:
+		if res.cErr == nil && res.sErr == nil && res.newErr == nil {
+			// finished on its own just as the patience ran out
+			return res, false
+		}
+		res.cErr = errors.New("verif: handshake stuck (" + fmt.Sprint(res.cErr) + ")")
+		return res, true
+	case <-time.After(patience):
+		return hsResult{cErr: errors.New("verif: handshake stuck, parties not released"),
+			sErr: errors.New("verif: handshake stuck, parties not released")}, true
+	}
 }
 
 // kitProxy is a mailbox.ProxyConn built from a real connKit whose control
